@@ -50,8 +50,9 @@ EXTRA = {
     "explanation": "Props/C07.lean: forms_aligned_json / forms_aligned_cellgrid (block-for-block alignment of the "
                    "three reads whenever the pdtable read succeeds, for every row list, filter, tracker, fixer and "
                    "ext), same_types, cellgrid_is_raw (+ C03 origin slice), non_table_blocks_equal, "
-                   "jsondata_commutes (make_table_json_data p == table_to_json_data (Table of p) as Python values, "
-                   "columns member identical in order). unknown_form_rejected is harness-only (generator semantics).",
+                   "jsondata_commutes / jsondata_commutes_read (make_table_json_data p == table_to_json_data (Table of p) as "
+                   "Python values, columns member identical in order, for every precursor a reader delivers: "
+                   "makePrecursor_shape). unknown_form_rejected is harness-only (generator semantics).",
 }
 
 FORMS = ("pdtable", "jsondata", "cellgrid")
